@@ -220,6 +220,18 @@ def single_lattice(rng, tier):
     t = add_regions(bundle_type(2, nd=2), L,
                     lower=dict(model='simple', vf_coolant=0.3))
     one('opt-only-lower-region-dd', t, gap_model='none')
+    # ducts whose walls differ in thickness (the un-rodded regions model
+    # only the outermost wall)
+    t = add_regions(bundle_type(2, nd=2, wall=[0.002, 0.0045],
+                                bypass_gap_flow_fraction=0.06), L,
+                    lower=dict(model='simple', vf_coolant=0.3),
+                    upper=dict(model='6node', vf_coolant=0.4,
+                               convection_factor=0.8))
+    one('opt-dd-unequal-walls-regions', t, gap_model='flow')
+    one('opt-3duct-unequal-walls-lowfi',
+        bundle_type(2, nd=3, wall=[0.004, 0.003, 0.0015],
+                    use_low_fidelity_model=True, low_fidelity_model='simple'),
+        gap_model='flow')
     if tier == 'thorough':
         one('rod4-adiabatic', bundle_type(4), power_order=2, ncell=3)
         one('rod5-dd', bundle_type(5, nd=2), gap_model='flow')
